@@ -157,6 +157,13 @@ func c15Run(w *core.W, q *dns.Msg, envs [][]*model.Rec, tsig bool, f c15Fault, r
 		if f.kind == "rcode" && i == f.at {
 			m.Bits |= uint16(rcodeAt)
 		}
+		if f.kind == "ext-rcode" && i == f.at {
+			// an RCODE above 15: its upper eight bits travel in the OPT record (which stands in front of the
+			// TSIG record of a signed envelope), the header's four bits may well be zero (BADVERS = 16)
+			ext := []int{16, 23, 3840, 4095, 32}[rcodeAt%5]
+			m.Bits |= uint16(ext & 0xF)
+			m.Ar = []*model.Rec{{Owner: model.Name{}, Type: 41, Class: 1232, TTL: uint32(ext>>4) << 24, L: model.Layouts[41], Vals: []any{[]model.Opt{}}}}
+		}
 		if f.kind == "rcode-noquestion" && i == f.at {
 			// an error answer without a question section (a bare REFUSED/SERVFAIL header, or a later
 			// envelope of a sender that leaves the question out, RFC 5936 s.2.2.2), with or without records
@@ -1036,7 +1043,7 @@ func c15Case(w *core.W, j int) {
 	}
 	w.Count("compositions", len(comps))
 	// faults
-	faults := []string{"first-not-soa", "rcode", "id", "rcode-noquestion"}
+	faults := []string{"first-not-soa", "rcode", "ext-rcode", "id", "rcode-noquestion"}
 	if tsig {
 		faults = append(faults, "alter", "alter-tsig-rr", "reorder", "unsign", "wrongkey", "emptymac", "idwire", "append-after-tsig", "stale-time")
 	}
